@@ -10,9 +10,9 @@ EXPLANATION = ("LEVINSON, TOEPLITZ, HERMTOEP and CHOLESKY are executed on symbol
                "reflection coefficients, the Sylvester characterisation of the raising paths, absence of roots "
                "outside the unit circle (direct query, p<=2) and T x = z for the solvers.")
 BOUNDS = {
-    "quick": "LEVINSON real order<=4, complex order<=2; Sylvester oracle order<=3 (real), <=2 (complex); root query "
+    "quick": "LEVINSON real order<=6, complex order<=3; Sylvester oracle order<=3 (real), <=2 (complex); root query "
              "order<=2 real, 1 complex; HERMTOEP M<=4 (5x5 systems) real and complex, TOEPLITZ M<=3 real, M<=2 complex; CHOLESKY n<=2 complex, n<=3 real",
-    "thorough": "LEVINSON real order<=6, complex order<=3; Sylvester order<=4 real, 3 complex; root query order<=2 real, 1 complex (+ Schur-Cohn lemma p<=3 real, 2 complex); "
+    "thorough": "LEVINSON real order<=8, complex order<=4; Sylvester order<=4 real, 3 complex; root query order<=2 real, 1 complex (+ Schur-Cohn lemma p<=3 real, 2 complex); "
                 "HERMTOEP M<=4, TOEPLITZ M<=4 real, M<=2 complex; CHOLESKY n<=3",
 }
 ASSUMPTIONS = ["floats modelled as exact reals", "sizes concrete and bounded",
@@ -215,13 +215,13 @@ def case_cholesky(h, n, cplx, method):
 def cases(tier, seed):
     q = tier == 'quick'
     out = []
-    for cplx, pmax, smax, rmax in ((False, 4 if q else 6, 3 if q else 4, 2),
-                                   (True, 2 if q else 3, 2 if q else 3, 1)):
+    for cplx, pmax, smax, rmax in ((False, 6 if q else 8, 3 if q else 4, 2),
+                                   (True, 3 if q else 4, 2 if q else 3, 1)):
         tag = 'cx' if cplx else 're'
         for p in range(1, pmax + 1):
             out.append(Case("LEVINSON:%s:p=%d" % (tag, p), case_levinson,
                             dict(p=p, cplx=cplx, sylvester=(p <= smax), rootq=(p <= rmax)),
-                            timeout=60 if q else 300, max_paths=32))
+                            timeout=60 if q else 300, max_paths=32, wall=400 if q else 2400))
             out.append(Case("LEVINSON:allow_singularity:%s:p=%d" % (tag, p), case_levinson_allow, dict(p=p, cplx=cplx),
                             timeout=60 if q else 300))
     for cplx in (False, True):
